@@ -225,7 +225,22 @@ def check(ctx):
                       and str(t[1]).startswith('std::numeric_limits::')]
             kstd = T.subst(kstd, {c: num(dg) for c in dconst})
             kstd = algebra.minmax_to_ite(kstd)
-            got = algebra.minmax_to_ite(pred_n)
+            def int_guard_to_max(t):
+                # `w == 0 ? 1 : w` for a non-negative integer w (a quotient of counts) is max(1, w); the identity check
+                # below works over the reals, where the two differ for 0 < w < 1
+                if not isinstance(t, tuple) or not t:
+                    return t
+                t = tuple(int_guard_to_max(x) if isinstance(x, tuple) else x for x in t)
+                if t[0] == 'ite' and isinstance(t[1], tuple) and len(t[1]) == 3:
+                    c_, a_, b_ = t[1], t[2], t[3]
+                    for w_, z_ in ((c_[1], c_[2]), (c_[2], c_[1])):
+                        if z_ == ZERO and isinstance(w_, tuple) and w_ and w_[0] in ('idiv', 'trunc'):
+                            if c_[0] == '==' and a_ == ONE and b_ == w_:
+                                return ('fn', 'max', ONE, w_)
+                            if c_[0] == '!=' and b_ == ONE and a_ == w_:
+                                return ('fn', 'max', ONE, w_)
+                return t
+            got = algebra.minmax_to_ite(int_guard_to_max(pred_n))
             ok, wit = algebra.equal(got, kstd)
             if ok:
                 ctx.holds('R3.sibling_agreement', where, 'random_number_usage equals the number of engine '
